@@ -11,7 +11,16 @@ every op, the spilled/in-RAM pattern, the counters of the slot's files on disk a
 indices handed to _unpack.  The same composition is also run with limit None; the monitor compares all
 values delivered by slots and received by consumers (bit-exact), checks confinement of files to the
 location, load(save p) = p per payload kind, and that the location is empty after run() returned.
+
+Families of cases (a case is one run, or {"family": "multi", "runs": [run, ...]}):
+  comp    generator -> consumers, direct or behind one time adapter (incl. consumers finer than the source)
+  static  a time component owning a dynamic output "Out" AND a static output "Stat" (slot kind KStatic) read by static
+          and/or ordinary inputs; the component attempts a SECOND publication of "Stat", which must be refused
+  multi   two or three compositions run one after the other IN THE SAME PROCESS with the SAME spill directory (fresh
+          slots, different payload values, gc.collect() in between so that id()s / file names are reused); each is
+          compared with its own limit=None run
 """
+import gc
 import hashlib
 import os
 import shutil
@@ -29,7 +38,9 @@ COQ_MODEL_OBS = "c10_model"
 CASE_TIMEOUT = 30
 RULE = (
     "real compositions: generator (step s) -> 1-3 consumers (steps c_i), each direct or behind "
-    "NextTime/PreviousTime/LinearTime/StepTime(step)/AvgOverTime/SumOverTime(per_time True|False); payload scalar / grid array / "
+    "NextTime/PreviousTime/LinearTime/StepTime(step)/AvgOverTime(step)/SumOverTime(step, per_time True|False), incl. consumers "
+    "finer than the source; static outputs read by static/ordinary inputs with a refused second publication; 2-3 "
+    "compositions in one process sharing the spill directory; payload scalar / grid array / "
     "masked array (fixed or flexible mask); slot_memory_limit in {None, -1, 0, k*nbytes, k*nbytes+-1 (k = 0..history), "
     "huge}, optionally overridden per slot; non-trivial = some slot holds at least one spilled and at least one "
     "in-RAM entry during the run (or, for limit 0 / None sweeps, at least one spill resp. none); distinct by "
@@ -112,8 +123,48 @@ def _simple(kind, payload, limit, src=2, dst=3, end=9, sp=None):
     return {"payload": payload, "src_step": src * 10**6, "consumers": [c], "end": end * 10**6, "limit": limit}
 
 
+def _static(payload, limit, sin="both", second=2, src=2, dst=3, end=9, nc=1, own=None):
+    r = {"family": "static", "payload": payload, "limit": limit, "src_step": src * 10**6, "end": end * 10**6,
+         "second_push": second,
+         "consumers": [{"step": (dst + i) * 10**6, "sin": sin if i == 0 else ["static", "timed", "both"][i % 3]} for i in range(nc)]}
+    if own:
+        r["own"] = own
+    return r
+
+
+def _multi(runs):
+    rs = []
+    for k, r in enumerate(runs):
+        r = dict(r)
+        r["voff"] = 100 * (k + 1)
+        rs.append(r)
+    return {"family": "multi", "runs": rs}
+
+
+def _fine(kind, payload, limit, src=5, dst=1, end=12, ist=None, sp=None, pt=True):
+    c = {"kind": kind, "step": dst * 10**6}
+    if ist is not None:
+        c["ist"] = ist
+    if sp:
+        c["sp"] = sp
+    if kind == "sum" and not pt:
+        c["pt"] = False
+    return {"payload": payload, "src_step": src * 10**6, "consumers": [c], "end": end * 10**6, "limit": limit}
+
+
 def _corpus():
     cs = []
+    # seeded C10_c: the file of a spilled STATIC publication must be gone after finalize
+    cs.append(_static("grid", 0, sin="both"))
+    cs.append(_static("masked", 24, sin="timed"))
+    # seeded C20_d: a second publication of a spilled static value must be refused
+    cs.append(_static("scalar", 0, sin="static", second=1))
+    # seeded C11_d: later slots reusing id()/file names in the same spill directory
+    cs.append(_multi([_simple("linear", "grid", 0, end=3), _simple("linear", "grid", 0, end=3), _simple("linear", "grid", 0, end=3)]))
+    cs.append(_multi([_simple("next", "scalar", 8, src=1, dst=3), _simple("next", "scalar", 8, src=1, dst=3)]))
+    # seeded C12_d: several pulls between two publications behind an integration adapter, limit crossed
+    cs.append(_fine("avg", "grid", 48))
+    cs.append(_fine("sum", "scalar", 8, ist=[1, 2], pt=False))
     # F3: single-entry spilled buffer of LinearTime / StepTime right after connect (limit 0)
     cs.append(_simple("linear", "grid", 0))
     cs.append(_simple("step", "grid", 0, sp=[1, 2]))
@@ -140,7 +191,7 @@ CORPUS = _corpus()
 
 
 def generate(rng, tier):
-    ncomp = 130 if tier == "quick" else 900
+    ncomp = 110 if tier == "quick" else 900
     cases = list(CORPUS)
     # every slot kind x payload kind x {0, one payload, None}: the systematic part
     for kind in KINDS:
@@ -161,7 +212,44 @@ def generate(rng, tier):
                 nslots = 1 + sum(1 for c in comp["consumers"] if c["kind"] != "direct")
                 own = {str(rng.randrange(nslots)): rng.choice([0, size, 2 * size, HUGE])}
             cases.append(_with(comp, lim, own))
+    # static outputs
+    for payload in PAYLOADS:
+        size = payload_size(payload)
+        for lim in [None, 0, size // 2, HUGE] + ([size, size - 1, -1] if tier != "quick" else []):
+            for sin in ["static", "timed", "both"]:
+                cases.append(_static(payload, lim, sin=sin, second=rng.choice([1, 2, 3]), src=rng.choice([1, 2, 3]),
+                                     dst=rng.choice([1, 2, 3, 5]), end=rng.choice([6, 9]), nc=rng.choice([1, 1, 2, 3])))
+        cases.append(_static(payload, None, sin="both", own={"1": 0}))
+        cases.append(_static(payload, 0, sin="timed", own={"1": HUGE}, nc=2))
+    # consumers finer than the source behind the interpolating / integrating adapters, limit crossed mid-run
+    for _ in range(40 if tier == "quick" else 600):
+        kind = rng.choice(["avg", "avg", "sum", "sum", "linear", "step"])
+        payload = rng.choice(PAYLOADS)
+        size = payload_size(payload)
+        cases.append(_fine(kind, payload, rng.choice([0, size, size + 1, 2 * size, 2 * size + 1, 3 * size]),
+                           src=rng.choice([3, 4, 5, 7]), dst=rng.choice([1, 1, 2]), end=rng.choice([10, 14, 21]),
+                           ist=rng.choice([None, "lin", [1, 2], [1, 4], [1, 1], [0, 1]]) if kind in ("avg", "sum") else None,
+                           sp=rng.choice(STEP_PARAMS) if kind == "step" else None, pt=rng.random() < 0.6))
+    # several compositions, one process, one spill directory
+    for _ in range(30 if tier == "quick" else 300):
+        n = rng.choice([2, 3, 3])
+        if rng.random() < 0.6:
+            comp = _gen_comp(rng)
+            size = payload_size(comp["payload"])
+            runs = [_with(comp, rng.choice([0, 0, size, 2 * size])) for _ in range(n)]
+        else:
+            runs = []
+            for _k in range(n):
+                comp = _gen_comp(rng)
+                runs.append(_with(comp, rng.choice([0, payload_size(comp["payload"])])))
+        if rng.random() < 0.2:
+            runs[rng.randrange(n)] = _static(rng.choice(PAYLOADS), 0, sin=rng.choice(["static", "timed", "both"]))
+        cases.append(_multi(runs))
     return cases
+
+
+def _runs(case):
+    return case["runs"] if case.get("family") == "multi" else [case]
 
 
 # ----------------------------------------------------------------------------
@@ -199,7 +287,30 @@ def _same_payload(a, b):
     return np.asarray(a).tobytes() == np.asarray(b).tobytes()
 
 
+_DEAD_IDS = set()  # id()s of the slots of the compositions already finished in the current multi case
+
+
+def _hunt(make, tries=1500):
+    """Build a slot, preferring one whose id() (hence whose spill file names) a finished slot already used:
+    CPython hands the addresses of dead objects out again, the harness only makes that likely instead of rare."""
+    if not _DEAD_IDS:
+        return make()
+    rejected = []
+    obj = None
+    for _ in range(tries):
+        obj = make()
+        if id(obj) in _DEAD_IDS:
+            break
+        rejected.append(obj)
+    del rejected
+    return obj
+
+
 def _make_adapter(c):
+    return _hunt(lambda: _make_adapter0(c))
+
+
+def _make_adapter0(c):
     k = c["kind"]
     if k == "next":
         return fm.adapters.NextTime()
@@ -210,10 +321,14 @@ def _make_adapter(c):
     if k == "step":
         n, d = c.get("sp", [1, 2])
         return fm.adapters.StepTime(step=n / d)
+    ist = c.get("ist")
+    stepv = None if ist == "lin" else (ist[0] / ist[1] if ist else None)
     if k == "avg":
-        return fm.adapters.AvgOverTime()
+        return fm.adapters.AvgOverTime() if ist is None else fm.adapters.AvgOverTime(step=stepv)
     if k == "sum":
-        return fm.adapters.SumOverTime(per_time=bool(c.get("pt", True)))
+        if ist is None:
+            return fm.adapters.SumOverTime(per_time=bool(c.get("pt", True)))
+        return fm.adapters.SumOverTime(step=stepv, per_time=bool(c.get("pt", True)))
     raise ValueError(k)
 
 
@@ -224,8 +339,13 @@ def _listing(loc):
         return ["<location missing>"]
 
 
-def _run_once(case, limit, loc, instrument):
-    payload = case["payload"]
+def _tus(t):
+    return 0 if t is None else us_of(t)
+
+
+def _payload_tools(run):
+    payload = run["payload"]
+    voff = float(run.get("voff", 0))
     if payload == "scalar":
         kw = dict(grid=fm.NoGrid(), units="m")
     else:
@@ -233,12 +353,10 @@ def _run_once(case, limit, loc, instrument):
                   mask=(MASK if payload == "masked" else fm.Mask.FLEX))
     counter = [0]
 
-    def gen(_t):
-        i = counter[0]
-        counter[0] += 1
+    def value(i):
         if payload == "scalar":
-            return float(3 * i + 1)
-        d = np.arange(6.0).reshape(3, 2) * 0.5 + 8.0 * i
+            return float(3 * i + 1) + voff
+        d = np.arange(6.0).reshape(3, 2) * 0.5 + 8.0 * i + voff
         if payload == "masked":
             return np.ma.array(d, mask=MASK)
         if payload == "flexmask":
@@ -247,10 +365,20 @@ def _run_once(case, limit, loc, instrument):
             return np.ma.array(d, mask=m)
         return d
 
-    src = fm.components.CallbackGenerator({"Out": (gen, fm.Info(None, **kw))}, T(0), D(case["src_step"]))
-    received = []
+    def gen(_t=None):
+        i = counter[0]
+        counter[0] += 1
+        return value(i)
+
+    return kw, gen, value
+
+
+def _build_comp(run, received, _extra):
+    """generator -> consumers, each direct or behind one time adapter"""
+    kw, gen, _value = _payload_tools(run)
+    src = fm.components.CallbackGenerator({"Out": (gen, fm.Info(None, **kw))}, T(0), D(run["src_step"]))
     comps = [src]
-    for i, c in enumerate(case["consumers"]):
+    for i, c in enumerate(run["consumers"]):
         def cb(inp, t, i=i):
             received.append([i, us_of(t), _digest(inp["In"])])
             return {}
@@ -259,28 +387,137 @@ def _run_once(case, limit, loc, instrument):
             ckw["units"] = None  # SumOverTime(per_time=True) delivers [units * s]
         comps.append(fm.components.CallbackComponent({"In": fm.Info(None, **ckw)}, {}, cb, T(0), D(c["step"])).with_name(f"C{i}"))
 
+    def wire():
+        out = src.outputs["Out"]
+        slots, kinds, nkeys = [out], ["output"], [len(run["consumers"])]
+        for i, c in enumerate(run["consumers"]):
+            if c["kind"] == "direct":
+                out >> comps[i + 1].inputs["In"]
+            else:
+                ada = _make_adapter(c)
+                out >> ada >> comps[i + 1].inputs["In"]
+                slots.append(ada)
+                kinds.append(c["kind"])
+                nkeys.append(1)
+        return slots, kinds, nkeys
+
+    return comps, wire
+
+
+def _build_static(run, received, extra):
+    """a time component with a dynamic output "Out" and a static output "Stat"; consumers read "Out" directly and
+    "Stat" through a static input "S" and/or an ordinary input "ST"; the source tries to publish "Stat" again"""
+    kw, gen, value = _payload_tools(run)
+    extra["second"] = []
+
+    class Src(fm.TimeComponent):
+        def __init__(self):
+            super().__init__()
+            self.time = T(0)
+            self._n = 0
+            self._first = None
+
+        def _initialize(self):
+            self.outputs.add(io=_hunt(lambda: fm.Output(name="Out", info=fm.Info(time=self.time, **kw))))
+            self.outputs.add(io=_hunt(lambda: fm.Output(name="Stat", static=True, info=fm.Info(time=None, **kw))))
+            self.create_connector()
+
+        def _connect(self, start_time):
+            if self._first is None:
+                self._first = {"Out": gen(), "Stat": value(50)}
+            self.try_connect(start_time, push_data=self._first)
+
+        def _validate(self):
+            pass
+
+        def _next_time(self):
+            return self.time + D(run["src_step"])
+
+        def _update(self):
+            self.time += D(run["src_step"])
+            self._n += 1
+            self.outputs["Out"].push_data(gen(), self.time)
+            if self._n == run.get("second_push"):
+                try:
+                    self.outputs["Stat"].push_data(value(60), None)
+                    extra["second"].append("accepted")
+                except fm.errors.FinamStaticDataError:
+                    extra["second"].append("refused")
+                except Exception as e:  # noqa
+                    extra["second"].append(err_class(e))
+
+        def _finalize(self):
+            pass
+
+    class Dst(fm.TimeComponent):
+        def __init__(self, i, c):
+            super().__init__()
+            self.time = T(0)
+            self._i, self._c, self._init = i, c, False
+
+        def _initialize(self):
+            self.inputs.add(name="In", info=fm.Info(time=self.time, **kw))
+            if self._c["sin"] in ("static", "both"):
+                self.inputs.add(name="S", static=True, info=fm.Info(time=None, **kw))
+            if self._c["sin"] in ("timed", "both"):
+                self.inputs.add(name="ST", info=fm.Info(time=self.time, **kw))
+            self.create_connector(pull_data=list(self.inputs.keys()))
+
+        def _connect(self, start_time):
+            self.try_connect(start_time)
+            if self.connector.all_data_pulled and not self._init:
+                self._init = True
+                for name in self.inputs.keys():
+                    received.append([self._i, name, us_of(self.time), _digest(self.connector.in_data[name])])
+
+        def _validate(self):
+            pass
+
+        def _next_time(self):
+            return self.time + D(self._c["step"])
+
+        def _update(self):
+            self.time += D(self._c["step"])
+            for name, inp in self.inputs.items():
+                received.append([self._i, name, us_of(self.time), _digest(inp.pull_data(self.time))])
+
+        def _finalize(self):
+            pass
+
+    src = Src().with_name("Src")
+    dsts = [Dst(i, c).with_name(f"C{i}") for i, c in enumerate(run["consumers"])]
+
+    def wire():
+        out, stat = src.outputs["Out"], src.outputs["Stat"]
+        n = 0
+        for dst in dsts:
+            out >> dst.inputs["In"]
+            for name in ("S", "ST"):
+                if name in dst.inputs:
+                    stat >> dst.inputs[name]
+                    n += 1
+        return [out, stat], ["output", "static"], [len(dsts), n]
+
+    return [src] + dsts, wire
+
+
+def _run_once(run, limit, loc, instrument):
+    received, extra = [], {}
+    comps, wire = (_build_static if run.get("family") == "static" else _build_comp)(run, received, extra)
     comp = fm.Composition(comps, print_log=False, slot_memory_limit=limit, slot_memory_location=loc)
-    out = src.outputs["Out"]
-    slots = [out]
-    kinds = ["output"]
-    for i, c in enumerate(case["consumers"]):
-        if c["kind"] == "direct":
-            out >> comps[i + 1].inputs["In"]
-        else:
-            ada = _make_adapter(c)
-            out >> ada >> comps[i + 1].inputs["In"]
-            slots.append(ada)
-            kinds.append(c["kind"])
+    slots, kinds, nkeys = wire()
     if instrument:  # per-slot limits set by the user win over the composition's (schedule.py 152, 194)
-        for si, own_lim in (case.get("own") or {}).items():
+        for si, own_lim in (run.get("own") or {}).items():
             if int(si) < len(slots):
                 slots[int(si)].memory_limit = own_lim
 
+    reused_from = set(_DEAD_IDS)
     events = [[] for _ in slots]
     delivered = [[] for _ in slots]
     roundtrip_bad = []
     nround = [0]
-    keep = []  # keeps packed objects alive (no id() reuse)
+    keep = []  # keeps packed objects alive during the run (no id() reuse within a run)
+    size0 = payload_size(run["payload"])
 
     def files_of(slot):
         pre = f"{id(slot)}-"
@@ -293,17 +530,17 @@ def _run_once(case, limit, loc, instrument):
                     res.append(4998)
         return sorted(res)
 
-    def pattern(slot, extra=None):
+    def pattern(slot, extra_entry=None):
         p = [isinstance(e[1], str) for e in slot.data]
-        if extra is not None:
-            p.append(extra)
+        if extra_entry is not None:
+            p.append(extra_entry)
         return p
 
     def instrument_slot(si, slot):
         cur = {"time": None, "trace": None, "npack": 0}
         by_file, by_obj, orig = {}, {}, {}
         real_pack, real_unpack = slot._pack, slot._unpack
-        is_out = si == 0
+        is_out = kinds[si] in ("output", "static")
         real_push = slot.push_data if is_out else slot._source_updated
         real_get = slot.get_data if is_out else slot._get_data
         keyidx = {}
@@ -323,8 +560,7 @@ def _run_once(case, limit, loc, instrument):
             else:
                 by_obj[id(r)] = idx
                 keep.append(r)
-            events[si].append(["push", us_of(cur["time"]) if cur["time"] is not None else -1, size,
-                               pattern(slot, isinstance(r, str)), files_of(slot)])
+            events[si].append(["push", _tus(cur["time"]), size, pattern(slot, isinstance(r, str)), files_of(slot)])
             return r
 
         def unpack(where):
@@ -347,7 +583,14 @@ def _run_once(case, limit, loc, instrument):
         def push(*a, **k):
             # Output.push_data(data, time) / Adapter._source_updated(time)
             cur["time"] = a[-1] if a else k.get("time")
-            return real_push(*a, **k)
+            n0 = cur["npack"]
+            try:
+                return real_push(*a, **k)
+            except Exception as e:  # noqa
+                if kinds[si] == "static" and cur["npack"] == n0:
+                    # refused before anything was packed
+                    events[si].append(["push", _tus(cur["time"]), size0, pattern(slot), files_of(slot), err_class(e)])
+                raise
 
         def get(time, target):
             cur["trace"] = []
@@ -355,12 +598,12 @@ def _run_once(case, limit, loc, instrument):
             try:
                 r = real_get(time, target)
             except Exception as e:  # noqa
-                events[si].append(["pull", key, us_of(time), ["err", err_class(e)], pattern(slot), files_of(slot)])
-                delivered[si].append([us_of(time), ["err", err_class(e)]])
+                events[si].append(["pull", key, _tus(time), ["err", err_class(e)], pattern(slot), files_of(slot)])
+                delivered[si].append([_tus(time), ["err", err_class(e)]])
                 cur["trace"] = None
                 raise
-            events[si].append(["pull", key, us_of(time), ["ok", list(cur["trace"])], pattern(slot), files_of(slot)])
-            delivered[si].append([us_of(time), _digest(r)])
+            events[si].append(["pull", key, _tus(time), ["ok", list(cur["trace"])], pattern(slot), files_of(slot)])
+            delivered[si].append([_tus(time), _digest(r)])
             cur["trace"] = None
             return r
 
@@ -371,16 +614,16 @@ def _run_once(case, limit, loc, instrument):
             slot._source_updated, slot._get_data = push, get
 
     def plain_slot(si, slot):
-        is_out = si == 0
+        is_out = kinds[si] in ("output", "static")
         real_get = slot.get_data if is_out else slot._get_data
 
         def get(time, target):
             try:
                 r = real_get(time, target)
             except Exception as e:  # noqa
-                delivered[si].append([us_of(time), ["err", err_class(e)]])
+                delivered[si].append([_tus(time), ["err", err_class(e)]])
                 raise
-            delivered[si].append([us_of(time), _digest(r)])
+            delivered[si].append([_tus(time), _digest(r)])
             return r
 
         if is_out:
@@ -393,16 +636,19 @@ def _run_once(case, limit, loc, instrument):
 
     error = None
     try:
-        comp.run(end_time=T(case["end"]))
+        comp.run(end_time=T(run["end"]))
     except Exception as e:  # noqa
         error = err_class(e)
-    res = {"error": error, "received": received, "delivered": delivered}
+    res = {"error": error, "received": received, "delivered": delivered, "second": extra.get("second", [])}
     if instrument:
         for si, slot in enumerate(slots):
             events[si].append(["finalize", pattern(slot), files_of(slot)])
         known = tuple(f"{id(s)}-" for s in slots)
+        _DEAD_IDS.update(id(s) for s in slots)
         res.update({
+            "reused_ids": sum(1 for s in slots if id(s) in reused_from),
             "kinds": kinds,
+            "nkeys": nkeys,
             "limits": [s.memory_limit for s in slots],
             "events": events,
             "bad": roundtrip_bad,
@@ -417,16 +663,26 @@ def run_impl(case):
     base = tempfile.mkdtemp(prefix="verif_c10_")
     old = os.getcwd()
     try:
-        loc = os.path.join(base, "spill")
+        loc = os.path.join(base, "spill")  # shared by all runs of a multi case
         cwd = os.path.join(base, "cwd")
         os.makedirs(cwd)
         os.chdir(cwd)
-        lim = _run_once(case, case["limit"], loc, True)
-        lim["cwd_files"] = sorted(os.listdir(cwd))[:5]
-        lim["base_files"] = sorted(x for x in os.listdir(base) if x not in ("spill", "cwd"))[:5]
-        loc2 = os.path.join(base, "spill_ref")
-        ref = _run_once(case, None, loc2, False)
-        return {"lim": lim, "ref": {"error": ref["error"], "received": ref["received"], "delivered": ref["delivered"]}}
+        runs = _runs(case)
+        _DEAD_IDS.clear()
+        lims = []
+        for run in runs:
+            gc.collect()
+            lim = _run_once(run, run["limit"], loc, True)
+            lim["cwd_files"] = sorted(os.listdir(cwd))[:5]
+            lim["base_files"] = sorted(x for x in os.listdir(base) if x not in ("spill", "cwd"))[:5]
+            lims.append(lim)
+            gc.collect()  # the slots of this composition are garbage now: their id()s may be handed out again
+        out = []
+        for k, run in enumerate(runs):
+            ref = _run_once(run, None, os.path.join(base, f"spill_ref{k}"), False)
+            out.append({"lim": lims[k], "ref": {key: ref[key] for key in ("error", "received", "delivered", "second")}})
+        _DEAD_IDS.clear()
+        return {"runs": out}
     finally:
         os.chdir(old)
         shutil.rmtree(base, ignore_errors=True)
@@ -435,30 +691,39 @@ def run_impl(case):
 # ----------------------------------------------------------------------------
 # Gallina emitter
 # ----------------------------------------------------------------------------
-def _expected_limits(case, nslots):
+def _expected_limits(run, nslots):
     """Composition(slot_memory_limit=...) applies to every slot the user did not configure (schedule.py 151-155, 193-197)."""
-    own = case.get("own") or {}
-    return [own[str(si)] if str(si) in own else case["limit"] for si in range(nslots)]
+    own = run.get("own") or {}
+    return [own[str(si)] if str(si) in own else run["limit"] for si in range(nslots)]
 
 
-def _kind_term(kind, case, si):
+def _slot_consumer(run, si):
+    """the consumer spec whose adapter is slot si (si >= 1) of a comp run"""
+    if run.get("family") == "static":
+        return None
+    ads = [c for c in run["consumers"] if c["kind"] != "direct"]
+    return ads[si - 1] if 1 <= si <= len(ads) else None
+
+
+def _kind_term(kind, run, si):
     if kind == "output":
         return "KOutput"
+    if kind == "static":
+        return "KStatic"
     if kind == "step":
-        ads = [c for c in case["consumers"] if c["kind"] != "direct"]
-        n, d = ads[si - 1].get("sp", [1, 2])
+        n, d = _slot_consumer(run, si).get("sp", [1, 2])
         return C("KStep", Z(n), Z(d))
     return {"next": "KNext", "prev": "KPrev", "linear": "KLinear", "avg": "KAvg", "sum": "KSum"}[kind]
 
 
-def _slot_terms(case, obs, si):
-    lim = obs["lim"]
+def _slot_terms(run, lim, si):
     ops, res = [], []
     npush = 0
     for ev in lim["events"][si]:
         if ev[0] == "push":
             ops.append(C("Push", Z(ev[1]), N(npush), Z(ev[2])))
-            npush += 1
+            if len(ev) <= 5:  # accepted (a refused push packs nothing)
+                npush += 1
             res.append(P(P(L(B(x) for x in ev[3]), L(N(k) for k in ev[4])), NONE))
         elif ev[0] == "pull":
             ops.append(C("Pull", N(ev[1]), Z(ev[2])))
@@ -468,35 +733,57 @@ def _slot_terms(case, obs, si):
         else:
             ops.append("Finalize")
             res.append(P(P(L(B(x) for x in ev[1]), L(N(k) for k in ev[2])), NONE))
-    nkeys = len(case["consumers"]) if si == 0 else 1
-    limit = _expected_limits(case, len(lim["events"]))[si]  # what the user configured, not what the slot ended up with
-    sc = P(P(_kind_term(lim["kinds"][si], case, si), NONE if limit is None else Some(Z(limit)), L(N(i) for i in range(nkeys))),
+    limit = _expected_limits(run, len(lim["events"]))[si]  # what the user configured, not what the slot ended up with
+    sc = P(P(_kind_term(lim["kinds"][si], run, si), NONE if limit is None else Some(Z(limit)),
+             L(N(i) for i in range(lim["nkeys"][si]))),
            "(" + L(ops) + " : list (op nat nat))")
     return sc, L(res)
 
 
+def _all_slot_terms(case, obs, which):
+    terms = []
+    for run, ro in zip(_runs(case), obs["runs"]):
+        for si in range(len(ro["lim"]["events"])):
+            terms.append(_slot_terms(run, ro["lim"], si)[which])
+    return terms
+
+
 def coq_case(case, obs):
-    return "(" + L(_slot_terms(case, obs, si)[0] for si in range(len(obs["lim"]["events"]))) + " : c10_case)"
+    return "(" + L(_all_slot_terms(case, obs, 0)) + " : c10_case)"
 
 
 def coq_obs(case, obs):
-    return "(" + L(_slot_terms(case, obs, si)[1] for si in range(len(obs["lim"]["events"]))) + " : c10_obs)"
+    return "(" + L(_all_slot_terms(case, obs, 1)) + " : c10_obs)"
 
 
 # ----------------------------------------------------------------------------
 # property monitor
 # ----------------------------------------------------------------------------
 def monitor(case, obs):
+    runs = _runs(case)
+    for k, (run, ro) in enumerate(zip(runs, obs["runs"])):
+        f = _monitor_run(run, ro)
+        if f:
+            if len(runs) > 1:
+                return f"composition {k + 1} of {len(runs)} run in one process with one spill directory: {f}"
+            return f
+    return None
+
+
+def _monitor_run(case, obs):
     lim, ref = obs["lim"], obs["ref"]
     if ref["error"] is not None:
         # every generated composition is valid: a failing reference run must never pass silently
         return f"the composition does not run even without a memory limit: {ref['error']}"
     if lim["error"] is not None:
         return f"run with limit {case['limit']} raised {lim['error']}; the run without a limit completed"
+    for which, r in (("with the limit", lim), ("without a limit", ref)):
+        if any(x != "refused" for x in r["second"]):
+            return f"a second publication of the static output was not refused {which} (limit {case['limit']}): {r['second']}"
     if lim["received"] != ref["received"]:
         for a, b in zip(lim["received"], ref["received"]):
             if a != b:
-                return f"consumer {a[0]} received {a[2]} at t={a[1]} with limit {case['limit']}, {b[2]} at t={b[1]} without a limit"
+                return f"consumer {a[0]} received {a[-1]} at {a[1:-1]} with limit {case['limit']}, {b[-1]} at {b[1:-1]} without a limit"
         return f"consumers received {len(lim['received'])} values with the limit, {len(ref['received'])} without"
     for si, (da, db) in enumerate(zip(lim["delivered"], ref["delivered"])):
         if da != db:
@@ -521,6 +808,10 @@ def monitor(case, obs):
     for si, evs in enumerate(lim["events"]):
         if evs[-1][1]:
             return f"slot {si} still buffers {len(evs[-1][1])} entries after finalize"
+        if lim["kinds"][si] == "static":
+            n = max([len(ev[3]) for ev in evs if ev[0] == "push"] + [0])
+            if n > 1:
+                return f"static slot {si} buffered {n} publications"
     return _limit_semantics(lim)
 
 
@@ -531,7 +822,7 @@ def _limit_semantics(lim):
         limit = lim["limits"][si]
         sizes, before = [], []
         for ev in evs:
-            if ev[0] == "push":
+            if ev[0] == "push" and len(ev) <= 5:
                 held = sizes[len(sizes) - len(before):] if before else []
                 ram = sum(z for z, sp in zip(held, before) if not sp)
                 want = limit is not None and 0 <= limit < ram + ev[2]
@@ -542,32 +833,31 @@ def _limit_semantics(lim):
                 sizes.append(ev[2])
                 before = ev[3]
             else:
-                before = ev[4] if ev[0] == "pull" else ev[1]
+                before = ev[4] if ev[0] == "pull" else ev[3] if ev[0] == "push" else ev[1]
     return None
 
 
-def _slot_consumer(case, si):
-    """the consumer spec whose adapter is slot si (si >= 1)"""
-    ads = [c for c in case["consumers"] if c["kind"] != "direct"]
-    return ads[si - 1] if 1 <= si <= len(ads) else None
+def _run_pairs(case, obs):
+    if not isinstance(obs, dict) or "runs" not in obs:
+        return []
+    return list(zip(_runs(case), obs["runs"]))
 
 
 def _sum_per_time_spilled_units(case, obs, failure):
-    """F9: a SumOverTime(per_time=True) adapter that spilled at least one entry; reloaded entries get the
-    adapter's OUTPUT units (input units * s) instead of the units they were buffered with."""
-    lim = obs.get("lim") if isinstance(obs, dict) else None
-    if not lim or "events" not in lim:
-        return False
-    for si, evs in enumerate(lim["events"]):
-        c = _slot_consumer(case, si)
-        if c and c["kind"] == "sum" and c.get("pt", True):
-            if any(ev[0] == "push" and ev[3] and ev[3][-1] for ev in evs):
-                return True
+    """F9 (fixed by fa847ec): a SumOverTime(per_time=True) adapter that spilled at least one entry; reloaded entries
+    got the adapter's OUTPUT units (input units * s) instead of the units they were buffered with."""
+    for run, ro in _run_pairs(case, obs):
+        lim = ro["lim"]
+        for si, evs in enumerate(lim.get("events", [])):
+            c = _slot_consumer(run, si)
+            if c and c["kind"] == "sum" and c.get("pt", True):
+                if any(ev[0] == "push" and ev[3] and ev[3][-1] for ev in evs):
+                    return True
     return False
 
 
 def _has_kind(kinds):
-    return lambda case, obs, failure: any(c["kind"] in kinds for c in case["consumers"])
+    return lambda case, obs, failure: any(c.get("kind") in kinds for run in _runs(case) for c in run["consumers"])
 
 
 classifiers = {
@@ -575,61 +865,78 @@ classifiers = {
     # classifiers of the repaired findings (status "fixed" entries suppress nothing)
     "single_entry_spilled_linear_step": _has_kind(["linear", "step"]),
     "adapter_spill_files_left": _has_kind(ADAPTERS),
-    "masked_payload_spill": lambda case, obs, failure: case["payload"] in ("masked", "flexmask"),
+    "masked_payload_spill": lambda case, obs, failure: any(r["payload"] in ("masked", "flexmask") for r in _runs(case)),
 }
 
 
 def _patterns(obs):
-    for evs in obs["lim"]["events"]:
-        for ev in evs:
-            yield ev[3] if ev[0] == "push" else ev[4] if ev[0] == "pull" else ev[1]
+    for ro in obs.get("runs", []):
+        for evs in ro["lim"]["events"]:
+            for ev in evs:
+                yield ev[3] if ev[0] == "push" else ev[4] if ev[0] == "pull" else ev[1]
 
 
 def nontrivial(case, obs):
+    if case.get("family") == "static":
+        # one entry only: non-trivial = the static publication was spilled and read back
+        return any(True in p for p in _patterns(obs))
     return any((True in p) and (False in p) for p in _patterns(obs))
 
 
 def distribution(cases, obss):
     from collections import Counter
 
-    kinds, pay, lims, mixed, spilled, pulls = Counter(), Counter(), Counter(), 0, 0, Counter()
+    fam, kinds, pay, lims, mixed, spilled, pulls, second, finer = Counter(), Counter(), Counter(), Counter(), 0, 0, Counter(), Counter(), 0
     for c, o in zip(cases, obss):
-        if "lim" not in o:
+        if "runs" not in o:
             continue
-        for c2 in c["consumers"]:
-            kinds[c2["kind"]] += 1
-        pay[c["payload"]] += 1
-        size = payload_size(c["payload"])
-        l = c["limit"]
-        lims["None" if l is None else "negative" if l < 0 else "0" if l == 0 else "huge" if l >= HUGE
-             else f"{l // size}*size" + ("" if l % size == 0 else "+r")] += 1
+        fam[c.get("family", "comp")] += 1
+        for run, ro in zip(_runs(c), o["runs"]):
+            for c2 in run["consumers"]:
+                kinds[c2.get("kind", "static:" + c2.get("sin", ""))] += 1
+                if c2.get("kind") in ("avg", "sum", "linear", "step") and 2 * c2["step"] <= run["src_step"]:
+                    finer += 1
+            pay[run["payload"]] += 1
+            size = payload_size(run["payload"])
+            l = run["limit"]
+            lims["None" if l is None else "negative" if l < 0 else "0" if l == 0 else "huge" if l >= HUGE
+                 else "half" if l < size else f"{l // size}*size" + ("" if l % size == 0 else "+r")] += 1
+            for x in ro["lim"]["second"]:
+                second[x] += 1
+            for evs in ro["lim"]["events"]:
+                for ev in evs:
+                    if ev[0] == "pull":
+                        pulls[ev[3][0] if ev[3][0] == "ok" else ev[3][1]] += 1
         ps = list(_patterns(o))
         mixed += any((True in p) and (False in p) for p in ps)
         spilled += any(True in p for p in ps)
-        for evs in o["lim"]["events"]:
-            for ev in evs:
-                if ev[0] == "pull":
-                    pulls[ev[3][0] if ev[3][0] == "ok" else ev[3][1]] += 1
-    return {"consumer_kinds": dict(kinds), "payloads": dict(pay), "limits": dict(lims),
-            "runs_with_mixed_buffer": mixed, "runs_with_spill": spilled, "slot_pulls": dict(pulls)}
+    return {"families": dict(fam), "consumer_kinds": dict(kinds), "payloads": dict(pay), "limits": dict(lims),
+            "cases_with_mixed_buffer": mixed, "cases_with_spill": spilled, "slot_pulls": dict(pulls),
+            "second_static_publications": dict(second), "adapter_consumers_at_least_twice_finer_than_source": finer}
 
 
 def extra_evidence(cases, obss):
     from collections import Counter
 
     rt = Counter()
+    failed = 0
     for c, o in zip(cases, obss):
-        if "lim" in o:
-            rt[c["payload"]] += o["lim"].get("roundtrips", 0)
+        for run, ro in _run_pairs(c, o):
+            rt[run["payload"]] += ro["lim"].get("roundtrips", 0)
+            failed += ro["ref"]["error"] is not None
+    reused = sum(ro["lim"].get("reused_ids", 0) for c, o in zip(cases, obss) for _r, ro in _run_pairs(c, o))
+    later = sum(len(ro["lim"].get("events", [])) for c, o in zip(cases, obss) for _r, ro in _run_pairs(c, o)[1:])
     return {
+        "multi_family_slots_reusing_the_id_of_a_finished_slot": f"{reused} of {later} slots of 2nd/3rd compositions",
         "load_save_roundtrips_checked_per_payload_kind": dict(rt),
-        "reference_runs_failed": sum(1 for o in obss if "ref" in o and o["ref"]["error"] is not None),
-        "partial": "real OS/file-system faults, id() reuse between slots of different lifetimes and the pickle format are "
-                   "outside the model; the numeric combination of the unpacked payloads is the business of C08/C11/C12",
+        "reference_runs_failed": failed,
+        "partial": "real OS/file-system faults and the pickle format are outside the model; id() reuse between slots of "
+                   "different lifetimes is exercised by the multi family only; the numeric combination of the unpacked "
+                   "payloads is the business of C08/C11/C12",
     }
 
 
-def shrink_candidates(case):
+def _shrink_run(case):
     cons = case["consumers"]
     if len(cons) > 1:
         for i in range(len(cons)):
@@ -655,3 +962,17 @@ def shrink_candidates(case):
         c = dict(case)
         c["limit"] = 0
         yield c
+
+
+def shrink_candidates(case):
+    if case.get("family") != "multi":
+        yield from _shrink_run(case)
+        return
+    runs = case["runs"]
+    if len(runs) > 1:
+        for i in range(len(runs)):
+            rest = runs[:i] + runs[i + 1:]
+            yield rest[0] if len(rest) == 1 else {"family": "multi", "runs": rest}
+    for i, r in enumerate(runs):
+        for r2 in _shrink_run(r):
+            yield {"family": "multi", "runs": runs[:i] + [r2] + runs[i + 1:]}
